@@ -780,6 +780,10 @@ class MessagePayload:
                 return np.array(values).T
             elif isinstance(values[0], Timestamp):
                 return np.array([float(v) for v in values])
+            elif all(type(v) is int for v in values) and min(values) >= 0 and 2**63 <= max(values) < 2**64:
+                # Unsigned 64-bit fields (e.g., flag bitmasks): NumPy would promote a list that mixes values below and
+                # above 2^63 to float64, which cannot represent them exactly.
+                return np.array(values, dtype=np.uint64)
             else:
                 return np.array(values)
 
